@@ -82,7 +82,8 @@ pub struct PreD
     pub ws : [SlotD; 3],        // "a","b" targets (first ntargets), "c" out-of-scope file
     pub cache : [SlotD; 5],     // slot k holds content k (I1); 4 = empty file
     pub table : [TableD; 2],
-    pub fresh : u8,             // mtime of the command's writes
+    pub fresh : u8,             // mtime of the command's write to target 0
+    pub fresh2 : u8,            // mtime of its write to target 1 (a distinct write: differs from `fresh` under Clock::Distinct)
     pub out : [u8; 2],          // what the deterministic command writes to target i
     pub exec_out : [bool; 2],
     pub has_history : bool,     // the rule history has an entry for the current sources hash
@@ -185,5 +186,26 @@ pub fn decode(raw : &mut Raw, ntargets : usize, clock : Clock, truthful_history 
         }
         t += 1;
     }
-    PreD { ntargets, ws, cache, table, fresh, out, exec_out, has_history, remembered }
+    /*  The command's second write.  Drawn last so that the raw layout of
+        everything above is unchanged.  Distinct clock: a distinct write has a
+        distinct mtime (W); coarse clock: one tick, same mtime. */
+    let fresh2 = match clock
+    {
+        Clock::Distinct =>
+        {
+            let f2 = raw.below(MT);
+            vassume(f2 != fresh);
+            unroll3!(i, { if ws[i].present { vassume(ws[i].mtime != f2); } });
+            unroll5!(k, { if cache[k].present { vassume(cache[k].mtime != f2); } });
+            let mut t = 0;
+            while t < ntargets
+            {
+                if table[t].known { vassume(table[t].mtime != f2); }
+                t += 1;
+            }
+            f2
+        },
+        Clock::Coarse => fresh,
+    };
+    PreD { ntargets, ws, cache, table, fresh, fresh2, out, exec_out, has_history, remembered }
 }
